@@ -203,11 +203,24 @@ class Drain(object):
                 self.why = 'stop'
                 return
 
+    def abort(self):
+        """Stop the thread without collecting (idempotent): a leaked drain would steal the next execution's data."""
+        self.stop = True
+        if self.t.is_alive():
+            self.t.join(15)
+
     def finish(self):
         link = self.link
         if link.name.startswith('pty'):
             sentinel = b'\x00\xffSENTINEL\xff\x00'
-            os.write(link.sp.hs_master, sentinel)
+            import select as _select
+            left = sentinel
+            while left:         # the code under test may have made the descriptor non-blocking
+                _select.select([], [link.sp.hs_master], [], 5)
+                try:
+                    left = left[os.write(link.sp.hs_master, left):]
+                except BlockingIOError:
+                    pass
             import time as _t
             t_end = _t.time() + 10
             while not self.buf.endswith(sentinel) and _t.time() < t_end:
